@@ -12,10 +12,11 @@ def sh(cmd):
     return subprocess.run(cmd, shell=True, capture_output=True, text=True, env=env)
 assert sh("git -C %s status --porcelain" % REPO).stdout.strip() == ""
 assert sh("git -C %s apply %s/patch.diff" % (REPO, d)).returncode == 0
-res = {"violated_with_change": 0, "not_violated_with_change": 0, "held_on_clean": 0, "not_held_on_clean": 0}
+res = {"violated_with_change": 0, "not_violated_with_change": 0, "held_on_clean": 0, "inconclusive_on_clean": 0, "violated_on_clean": 0}
+CAP = int(os.environ.get("REPLAY_CAP", "8"))  # replay files looked at per change (they are alike within a group)
 try:
     sh("/venv/bin/python -B %s/check.py %s" % (VROOT, prop))
-    files = sorted(glob.glob(os.path.join(rdir, prop, "*.json")))
+    files = sorted(glob.glob(os.path.join(rdir, prop, "*.json")))[:CAP]
     for f in files:
         out = sh("/venv/bin/python -B %s/check.py %s --replay %s" % (VROOT, prop, f)).stdout
         res["violated_with_change" if "REPLAY violated" in out else "not_violated_with_change"] += 1
@@ -23,6 +24,6 @@ finally:
     sh("git -C %s checkout -- . && git -C %s clean -fdq -- praatio tests examples" % (REPO, REPO))
 for f in files:
     out = sh("/venv/bin/python -B %s/check.py %s --replay %s" % (VROOT, prop, f)).stdout
-    res["held_on_clean" if "REPLAY held" in out else "not_held_on_clean"] += 1
+    res["held_on_clean" if "REPLAY held" in out else ("violated_on_clean" if "REPLAY violated" in out else "inconclusive_on_clean")] += 1
 shutil.rmtree(rdir, ignore_errors=True); shutil.rmtree(rdir + "_ev", ignore_errors=True)
 print(os.path.basename(d), prop, res)
